@@ -20,3 +20,9 @@ func VerifPingWaiters() (n int, nextID uint16) {
 // VerifSetMonitorNICFrequency overrides the NIC monitor period (default 3 minutes,
 // after which an idle process is sent SIGTERM). Must be called before NewSession.
 func VerifSetMonitorNICFrequency(d time.Duration) { monitorNICFrequency = d }
+
+// VerifPingFrom exposes the internal ping-with-source (used by ValidateDefaultRouter with the
+// router's IP as source): same code path as Ping, source address chosen by the caller.
+func (h *Session) VerifPingFrom(src Addr, dst Addr, timeout time.Duration) error {
+	return h.ping(src, dst, timeout)
+}
